@@ -11,7 +11,10 @@
     c01 nums <n> <seed>                             -> ok   (implementation-only oracle: f64 round trip)
 
   Numbers are `Display` texts; the optional `num=` hint carries what Rust's `parse::<f64>()` + `Display`
-  make of a text that the model's `floatSyntax` accepts.
+  make of a text that the model's `floatSyntax` accepts.  A value stored with `set_value_lazy` (op `l`) is typed
+  only when the workbook is saved (`Cell::write_to`, fix 6), so the hints of `l` ops are kept in the state until the
+  next `reset` and handed to the model writer.  The last field of an observation is the run list of a rich text,
+  `=<text>` for an unresolved lazy value (its stored text; `get_value` shows nothing), `~` otherwise.
 -/
 import Umya.Driver.Proto
 import Umya.Model.CellXml
@@ -23,6 +26,7 @@ abbrev CellT := Cell (List Char)
 structure St where
   sheets : List (List CellT) := []
   unmodelled : Bool := false   -- a structural edit happened in this workbook: not followed by this model
+  hints : List (List Char × List Char) := []   -- `num=` hints of the `l` ops since the last reset (used by `save`)
 
 def keyLt (a b : Nat × Nat) : Bool := a.1 < b.1 || (a.1 == b.1 && a.2 < b.2)
 
@@ -57,14 +61,20 @@ def runsStr (rs : List Run) : String :=
 def kindStr : RawValue (List Char) → String
   | .empty => "z" | .str _ => "s" | .rich _ => "r" | .num _ => "n" | .bool _ => "b" | .err _ => "e" | .lazy _ => "l"
 
+/-- last field of an observation: the runs of a rich text, `=<text>` for an unresolved lazy value -/
+def extraStr : RawValue (List Char) → String
+  | .rich rs => runsStr rs
+  | .lazy s => "=" ++ encodeStr s
+  | _ => "~"
+
 def obsStr (c : CellT) : String :=
   let v : List Char := valueText (textFmt []) c.raw
-  let runs := match c.raw with | .rich rs => runsStr rs | _ => "~"
+  let runs := extraStr c.raw
   s!"{kindStr c.raw} {encodeStr v} {optText c.formula} {if c.styled then 1 else 0} {runs}"
 
 def cellDump (c : CellT) : String :=
   let v : List Char := valueText (textFmt []) c.raw
-  let runs := match c.raw with | .rich rs => runsStr rs | _ => "~"
+  let runs := extraStr c.raw
   s!"{c.col},{c.row},{kindStr c.raw},{encodeStr v},{optText c.formula},{if c.styled then 1 else 0},{runs}"
 
 def dumpStr (sheets : List (List CellT)) : String :=
@@ -202,7 +212,7 @@ def applyOp (name : String) (args : List String) (c : CellT) : Option CellT :=
   | "r", [a] => (parseRuns a).map (fun rs => Cell.setRichText (textFmt []) c rs)
   | "f", [a] => (decodeStr a).map (fun s => Cell.setFormula (textFmt []) c s)
   | "k", [] => some (Cell.setBlank (textFmt []) c)
-  | "l", [a] => (decodeStr a).map (fun s => Cell.setValueLazy (textFmt []) c s)
+  | "l", a :: _ => (decodeStr a).map (fun s => Cell.setValueLazy (textFmt []) c s)
   | "y", [] => some (Cell.setStyled (textFmt []) c)
   | _, _ => none
 
@@ -217,7 +227,7 @@ def handle (st : St) (args : List String) : St × String :=
   match args with
   | ["reset", n] =>
     match n.toNat? with
-    | some k => ({ sheets := List.replicate k [] }, "ok")
+    | some k => ({ sheets := List.replicate k [], hints := [] }, "ok")
     | none => (st, "bad-op")
   | "op" :: s :: col :: row :: name :: rest =>
     match s.toNat?, col.toNat?, row.toNat? with
@@ -230,12 +240,17 @@ def handle (st : St) (args : List String) : St × String :=
          | none => (st, "bad-op")
          | some c' =>
            let sheet' := modifyCell sheet col row (fun _ => c')
-           ({ sheets := st.sheets.set s sheet' }, obsStr c'))
+           let hs := if name = "l" then
+               (match rest with
+                | a :: more => (match decodeStr a with | some t => hintOf t more | none => [])
+                | [] => [])
+             else []
+           ({ st with sheets := st.sheets.set s sheet', hints := hs ++ st.hints }, obsStr c'))
     | _, _, _ => (st, "bad-op")
   | ["dump"] => (st, dumpStr st.sheets)
   | ["save", w] =>
     if w = "std" ∨ w = "light" then
-      match writeBook F (w = "light") st.sheets with
+      match writeBook (textFmt st.hints) (w = "light") st.sheets with
       | some b => (st, bookXStr b)
       | none => (st, "panic")
     else (st, "bad-op")
